@@ -138,7 +138,7 @@ PROPS = {
             "R-GUARD / R-RESERVE-ONLY: the offset containers behind ConsecutiveIndexPairs keep push order (a re-ordered offset cuts a string inside a character), and reserve paths never replace a codec or storage that already holds strings",
             "R-ITER: the row iterator of a columns region pairs every cell index with its own column, also when stepped from the back (an index applied to another column's bytes cuts a string at a foreign offset)",
             "R-RESET: clear() resets every field of the codec behind a string region (a dictionary whose writer table survives clear stores tag bytes the empty reader table returns verbatim)"],
-        "not_decided": ["that the inner byte region returns exactly the pushed byte range (C01/C02 clauses)", "deserialising foreign data", "capacity limits inside the dictionary's tables (seeded change C04_f2: 16-bit offsets in BytesMap silently drop entries the writer table still uses)"],
+        "not_decided": ["an off-by-one inside a new Option-returning Stride lookup that index() consults (seeded change C04_p1: R-BOUND / R-CONCAT answer undecided for an inlined Stride helper they have no model for; the corrected twin is controls/R17_stride_get_option)", "that the inner byte region returns exactly the pushed byte range (C01/C02 clauses)", "deserialising foreign data", "capacity limits inside the dictionary's tables (seeded change C04_f2: 16-bit offsets in BytesMap silently drop entries the writer table still uses)"],
     },
     "C05": {
         "rules": [O.r_byref_while, I.r_ovf, I.r_accept_exact, I.r_panic_edges, I.r_nowrite_on_reject, I.r_len_step, A.r_freeze, A.r_foreign_writers, A.r_reject_stored, I.r_concat, I.r_stride_iter,
@@ -326,7 +326,7 @@ PROPS = {
         "decided": [
             "R-COVER (conditional reports): heap_size calls the caller's callback under no condition on the size being reported",
             "R-COVER (totals): a summarising callback accumulates the size and the capacity of one report into the same total",
-            "R-COVER (wrappers): a callback wrapper passes the reported size on unreduced (no subtraction / saturating_sub / min of it)","R-COVER(heap_size)", "R-RETAIN: clear() never replaces a storage whose capacity is reported", "R-TODO",
+            "R-COVER (wrappers): a callback wrapper passes the reported size on unreduced (no subtraction / saturating_sub / min of it)","R-COVER(heap_size)", "R-RETAIN: clear() never replaces a storage whose capacity is reported, and never drops (Vec::clear/truncate/drain/pop/retain) the elements of a collection whose elements report capacity (ColumnsRegion's vector of column regions: push recreates dropped columns empty, so the reported capacity shrinks across clear)", "R-TODO",
             "R-RESET: clear() resets every storage field on every path (an early return that skips the reset keeps pushed payload accounted after clear)",
             "R-RESERVE-ONLY: reserve paths never shrink or replace a storage (a spine shrunk by resize_with drops payload and capacity from the report without a clear)"],
         "not_decided": ["the byte lower bound against a reference model"],
